@@ -150,8 +150,11 @@ TEXTS = {
                 "information content of every term, the record maps (exactly the records written, gene names cut at the limit, in file order), "
                 "the release version and — when the script ended in build_with_defaults — the category and modifier sets come back equal; "
                 "no hypothesis remains but that the format can carry the ontology (file_ok: ids and lengths within the field widths, valid "
-                "UTF-8). Not covered by a theorem: sources that were themselves loaded from JAX text or produced by sub_ontology — decided "
-                "per generated ontology by running the encode/decode transcription against as_bytes/from_bytes (bytes compared "
+                "UTF-8). THE SAME FOR THE OTHER CONSTRUCTION PATHS: C07_roundtrip_any_source states the round trip for any source with exact "
+                "caches, children = parents^-1, an acyclic graph, inherited annotation sets, IC = calculate(N, n) and distinct record ids; "
+                "C07_jax_roundtrip_complete discharges these for every ontology from_standard / from_standard_transitive loads from files whose "
+                "hp.obo has a stanza for every is_a target, C07_sub_ontology_roundtrip_complete for every sub_ontology of an ontology with exact "
+                "caches. Additionally decided per generated ontology by running the encode/decode transcription against as_bytes/from_bytes (bytes compared "
                 "record-sorted, reload dumped through the whole read API, Ontology::compare consulted) and by spec_C07 on the crate's observation.",
         "design_ref": "DESIGN.md §4 C07, §9", "note": NOTE_COMMON + "String::from_utf8 / is_char_boundary modelled by byte-level predicates.", "technique": TECH,
     },
